@@ -86,6 +86,9 @@ def run(ctx):
             if ic is None:
                 continue
             src, ext = ic
+            if "()" in src and rng.random() < 0.35:
+                # an empty parameter list may be spelled `(void)`; it denotes the same type
+                src = src.replace("()", "(void)")
             n += 1
             per_ctx[c] = per_ctx.get(c, 0) + 1
             ctx.count((c, src), nontrivial=G.type_depth(t) >= 1)
